@@ -13,6 +13,7 @@ REGISTRY = {
     'C02': ('checks.cv', 'check_c02'),
     'C03': ('checks.cv', 'check_c03'),
     'C04': ('checks.cv', 'check_c04'),
+    'C05': ('checks.cv', 'check_c05'),
     'C06': ('checks.callrun', 'check_c06'),
     'C07': ('checks.callrun', 'check_c07'),
     'C08': ('checks.c0809', 'check_c08'),
